@@ -397,15 +397,21 @@ Proof.
     split; [reflexivity|]. split; [reflexivity|]. eexists. vm_compute. split; reflexivity.
 Qed.
 
-(* ---- stop_on.  _MultipleMatch.parseImpl's loop `rep_go` = the sentinel check (check_ender: not_ender.try_parse(instring, loc))
-   then, unless that raised, rep_round: skip ignorables, parse the body, go round again *)
+(* ---- stop_on.  _MultipleMatch.parseImpl's loop `rep_go` = skip the ignorables, then the sentinel check behind them
+   (rep_check: not_ender.try_parse(instring, preloc)), then, unless that raised, rep_body: parse the body, go round again *)
 Theorem C07_rep_go_unfold : forall k foe e body ne s d f loc acc,
   rep_go k foe e body ne s d (S f) loc acc =
-  check_ender ne s loc (fun r => match r with
-                                 | Some o => rep_stop k foe loc acc o
-                                 | None => rep_round k foe e body ne s d f loc acc
-                                 end).
+  skip_ignorables (fun x => rep_stop k foe loc acc (Err x)) (length s + 2) (ign_of e) s loc
+                  (rep_check k foe e body ne s d f loc acc).
 Proof. exact rep_go_unfold. Qed.
+
+Theorem C07_rep_check_unfold : forall k foe e body ne s d f loc acc preloc,
+  rep_check k foe e body ne s d f loc acc preloc =
+  check_ender ne s preloc (fun r => match r with
+                                    | Some o => rep_stop k foe loc acc o
+                                    | None => rep_body k foe e body ne s d f loc acc preloc
+                                    end).
+Proof. reflexivity. Qed.
 
 (* (4a) the sentinel c (not_ender = ~c, a NotAny without ignore expressions or parse actions, evaluated by the handler according
    to its own `step`) raises a fatal exception where the check is made: "the sentinel is not here" - the repetition goes on and
@@ -414,15 +420,17 @@ Theorem C07_stop_on : forall (G : env) rec k foe e body an c s d f loc acc x,
   acts an = [] ->
   rec (mkargs (Enh an [] ENot c) s loc false true) = run rec (step G (mkargs (Enh an [] ENot c) s loc false true)) ->
   rec (mkargs c s (ender_loc an s loc) false true) = Some (Err x) -> is_fatal (xk x) = true ->
-  run rec (rep_go k foe e body (Some (Enh an [] ENot c)) s d (S f) loc acc) =
-  run rec (rep_round k foe e body (Some (Enh an [] ENot c)) s d f loc acc).
+  forall loc0,
+  run rec (rep_check k foe e body (Some (Enh an [] ENot c)) s d f loc0 acc loc) =
+  run rec (rep_body k foe e body (Some (Enh an [] ENot c)) s d f loc0 acc loc).
 Proof. exact stop_on_fatal_sentinel. Qed.
 
-(* (4b) nor can the check itself let one out: a fatal answer of `not_ender.try_parse(instring, loc)` (raise_fatal defaults to
+(* (4b) nor can the check itself let one out: a fatal answer of `not_ender.try_parse(instring, preloc)` (raise_fatal defaults to
    False) arrives as a ParseException, i.e. "the sentinel is here": the loop ends with what it has *)
 Theorem C07_stop_on_check_never_fatal : forall rec k foe e body ne s d f loc acc x,
   rec (mkargs ne s loc false true) = Some (Err x) -> is_fatal (xk x) = true ->
-  run rec (rep_go k foe e body (Some ne) s d (S f) loc acc) = run rec (k (inr (loc, RPR acc))).
+  forall loc0,
+  run rec (rep_check k foe e body (Some ne) s d f loc0 acc loc) = run rec (k (inr (loc0, RPR acc))).
 Proof. exact stop_on_check_never_fatal. Qed.
 
 (* (4c) everything else a repetition with stop_on calls - its body, its ignore expressions - is transparent: whatever set of
